@@ -284,7 +284,8 @@ site("tools::ntp_to_system_time|op-trait|SystemTime::add(std::time::SystemTime::
 
 # ---- Receiver ------------------------------------------------------------------------------------------------------------------------------
 site("receiver::receiver::Receiver::gc_object_error|unwrap|Option::unwrap(BTreeSet::pop_first(&self.objects_error))",
-     "loop condition len() > max_objects_error >= 0: the set is not empty", [("dom", r"max_objects_error < BTreeSet::len")])
+     "loop condition len() > max_objects_error >= 0: the set is not empty (or, as a counted loop, one pop per unit of len - max_objects_error: at most len pops)",
+     [("dom", r"max_objects_error < BTreeSet::len || Range\{start: 0, end: <impl usize>::saturating_sub\(BTreeSet::len\(&self\.objects_error\), self\.config\.max_objects_error\)\}.* is Some")])
 site("receiver::receiver::Receiver::push_fdt_obj|unwrap|Option::unwrap(FdtReceiver::fdt_meta(&fdt_current~2))",
      "reached only when the instance state is Complete, which FdtWriter::complete sets from ObjectReceiver::complete(); FdtReceiver::push then sees obj.state == Completed "
      "in the same call and stores meta = Some(create_meta()) before the state is read",
